@@ -1,6 +1,6 @@
 import Lean.Data.Json
 import Driver.Util
-import Cutadapt.Stats
+import Cutadapt.Regroup
 /-! `pipeline <json>`: run the pipeline model on an option record, adapters and reads given as JSON; print JSON. -/
 namespace Driver
 open Lean Cutadapt Cutadapt.Adapters
@@ -170,34 +170,43 @@ def opPipeline (line : String) : String :=
       -- `Renamer.__init__` / `PairedEndRenamer.__init__` reject unknown placeholders (InvalidTemplate → command-line error)
       if (match o.rename with | some t => !renameVarsOK o.paired t | none => false) then
         pure (Json.mkObj [("error", "cmdline"), ("stage", "setup")]).compress
-      else if o.paired then
-        match makePaired o ads ads2 with
-        | .error e => pure (Json.mkObj [("error", showErr e), ("stage", "setup")]).compress
-        | .ok (p, f) =>
-          let (evs, err) := runPaired p (reads.zip reads2)
-          match err with
-          | some e => pure (Json.mkObj [("error", showErr e), ("stage", "run")]).compress
-          | none =>
-            let s := summarize evs
-            pure (Json.mkObj ([("files", Json.mkObj ((filesOf f.writers evs).map (fun (p, rs) => (p, Json.arr (rs.map readJson).toArray)))),
-              ("texts", Json.mkObj ((textsOf f.texts evs).map (fun (p, ls) => (p, Json.arr (ls.map Json.str).toArray)))),
-              ("adapter_stats1", Json.arr ((adapterStats ads 0 evs).map astatsJson).toArray),
-              ("adapter_stats2", Json.arr ((adapterStats ads2 1 evs).map astatsJson).toArray)] ++
-              summaryJson s (collectFiltered p.steps s))).compress
       else
-        match makeSingle o ads with
-        | .error e => pure (Json.mkObj [("error", showErr e), ("stage", "setup")]).compress
-        | .ok (p, f) =>
-          let (evs, err) := runSingle p reads
-          match err with
-          | some e => pure (Json.mkObj [("error", showErr e), ("stage", "run")]).compress
-          | none =>
-            let s := summarize evs
-            pure (Json.mkObj ([("files", Json.mkObj ((filesOf f.writers evs).map (fun (p, rs) => (p, Json.arr (rs.map readJson).toArray)))),
-              ("texts", Json.mkObj ((textsOf f.texts evs).map (fun (p, ls) => (p, Json.arr (ls.map Json.str).toArray)))),
-              ("adapter_stats1", Json.arr ((adapterStats ads 0 evs).map astatsJson).toArray),
-              ("adapter_stats2", Json.arr #[])] ++
-              summaryJson s (collectFiltered p.steps s))).compress
+        let noIndex := flag (← j.getObjVal? "opts") "no_index"
+        if o.paired then
+          let built : Except Err (PairedPipeline × Files × Regrouped × Regrouped) :=
+            if noIndex then (makePaired o ads ads2).map (fun (p, f) =>
+              (p, f, ⟨ads, (List.range ads.length).map some⟩, ⟨ads2, (List.range ads2.length).map some⟩))
+            else makePairedIndexed o ads ads2
+          match built with
+          | .error e => pure (Json.mkObj [("error", showErr e), ("stage", "setup")]).compress
+          | .ok (p, f, rg1, rg2) =>
+            let (evs, err) := runPaired p (reads.zip reads2)
+            match err with
+            | some e => pure (Json.mkObj [("error", showErr e), ("stage", "run")]).compress
+            | none =>
+              let s := summarize evs
+              pure (Json.mkObj ([("files", Json.mkObj ((filesOf f.writers evs).map (fun (p, rs) => (p, Json.arr (rs.map readJson).toArray)))),
+                ("texts", Json.mkObj ((textsOf f.texts evs).map (fun (p, ls) => (p, Json.arr (ls.map Json.str).toArray)))),
+                ("adapter_stats1", Json.arr ((statsInGivenOrder rg1 ads.length (adapterStatsT rg1.ads 0 evs)).map astatsJson).toArray),
+                ("adapter_stats2", Json.arr ((statsInGivenOrder rg2 ads2.length (adapterStatsT rg2.ads 1 evs)).map astatsJson).toArray)] ++
+                summaryJson s (collectFiltered p.steps s))).compress
+        else
+          let built : Except Err (SinglePipeline × Files × Regrouped) :=
+            if noIndex then (makeSingle o ads).map (fun (p, f) => (p, f, ⟨ads, (List.range ads.length).map some⟩))
+            else makeSingleIndexed o ads
+          match built with
+          | .error e => pure (Json.mkObj [("error", showErr e), ("stage", "setup")]).compress
+          | .ok (p, f, rg) =>
+            let (evs, err) := runSingle p reads
+            match err with
+            | some e => pure (Json.mkObj [("error", showErr e), ("stage", "run")]).compress
+            | none =>
+              let s := summarize evs
+              pure (Json.mkObj ([("files", Json.mkObj ((filesOf f.writers evs).map (fun (p, rs) => (p, Json.arr (rs.map readJson).toArray)))),
+                ("texts", Json.mkObj ((textsOf f.texts evs).map (fun (p, ls) => (p, Json.arr (ls.map Json.str).toArray)))),
+                ("adapter_stats1", Json.arr ((statsInGivenOrder rg ads.length (adapterStatsT rg.ads 0 evs)).map astatsJson).toArray),
+                ("adapter_stats2", Json.arr #[])] ++
+                summaryJson s (collectFiltered p.steps s))).compress
     match r with
     | .ok s => s
     | .error e => s!"bad-op {e}"
